@@ -44,7 +44,7 @@ func ParseSchema(source string) (*Schema, error) {
 		}
 
 		if cur.IsNext("//") {
-			cur.SkipSpaces()
+			cur.SkipInlineSpaces() // not SkipSpaces: an empty comment must not run over to the next line
 			ctype, err := cur.ReadAt(' ')
 			if err != nil {
 				return nil, fmt.Errorf("read comment type: %w", err)
